@@ -111,7 +111,7 @@ func runRegistryCase(cs *Case, record bool) {
 	ids := registryIDs(cs)
 	fail := func(class, detail string) {
 		c := *cs
-		rep.FailLazy(class, cs.Ordinal, func() engine.Failure {
+		recordFailure(class, cs.Ordinal, func() engine.Failure {
 			return engine.Failure{Detail: fmt.Sprintf("registry states %d..%d in one section: %s", ids[0], ids[len(ids)-1], detail), Case: c}
 		})
 	}
@@ -297,7 +297,7 @@ func registryBijection() {
 		}
 		if other, dup := seen[k]; dup {
 			cs := Case{Part: "registry", IDs: []int{other, id}}
-			rep.FailLazy("registry/bijection/two-state-ids-share-name-and-properties", id, func() engine.Failure {
+			recordFailure("registry/bijection/two-state-ids-share-name-and-properties", id, func() engine.Failure {
 				return engine.Failure{Detail: fmt.Sprintf("states %d and %d are both saved as %s", other, id, k), Case: cs}
 			})
 			continue
